@@ -228,7 +228,10 @@ class Rebalance(Contract):
             vn = SymBrokerView(I, c.self, h)
             tr1 = h[h[c.self.oid]["track_record"].oid]
             return [PW("positions_unchanged", lambda k: z3.Implies(k != vo.cash, vn.qty(k) == vo.qty(k))),
-                    Cl("track_record_unchanged", z3.And(tr1["_n"].v == tr0["_n"].v, z3.BoolVal(tr1["_last_record"] is tr0["_last_record"]))),
+                    PW("wf", lambda k: wf_at(vn, k)), Cl("cash_ok", cash_ok(vn)),
+                    PW("static_keys", lambda k: z3.Implies(z3.Or(vn.in_qty(k), vn.in_margins(k), vn.has_last(k)), static_key(k))),
+                    Cl("track_record_unchanged", z3.And(tr1["_n"].v == tr0["_n"].v, z3.BoolVal(tr1["_last_record"] is tr0["_last_record"]),
+                                                        z3.BoolVal(tr1["_has_time"] is tr0["_has_time"]))),
                     Cl("no_trade_executed", z3.BoolVal(not any(t == ("call", "Broker.transact") for t in I.trace)))]
         return LazyList(post)
 
@@ -239,7 +242,7 @@ class Rebalance(Contract):
         eq = EquityFam(c.self)
         late = lambda: ghost.gsum(I, eq, None) <= 0
         def late_post():
-            return []
+            return self.common_post(c)
         return {
             "ValueError": {"when": z3.Or(early, z3.And(z3.Not(early), z3.Or(missing, z3.And(E1 > 0, z3.Or(nan_imb, rejected))))),
                            "modifies": mods, "post": self.nothing_traded(c)},
@@ -276,7 +279,21 @@ class Rebalance(Contract):
         trades = I.new_obj("objmap", "list", {"cols": cols, "dom": lambda k: S.emitted(k), "rowcls": "Trade", "total": False,
                                               "keyed_list": True})
         I.fset(c.rebalancing, "trades", trades)
+        I.fset(c.rebalancing, "context_pre", I.new_rec("Context", nlv=Fl(E1)))
         I.trace.append(("rebalance", c.rebalancing.oid))
+
+    def havoc_final(self, c):
+        """after the post-trade valuation: context_post is recorded and exactly one checkpoint is taken"""
+        I = c.I
+        tr = I.heap[c.self.oid]["track_record"]
+        t0 = c.old[tr.oid]
+        t = lift_fl(c.old[c.rebalancing.oid]["time"]).v
+        I.fset(c.rebalancing, "context_post", I.new_rec("Context", nlv=Fl(ghost.gsum(I, EquityFam(c.self), None)),
+                                                        nr_contracts=I.heap[c.self.oid]["_holdings_quantity"]))
+        old_has = t0["_has_time"]
+        I.fset(tr, "_has_time", lambda x: z3.Or(old_has(x), x == t))
+        I.fset(tr, "_n", In(t0["_n"].v + 1))
+        I.fset(tr, "_last_record", c.rebalancing)
 
     def common_post(self, c):
         """facts that hold once the trades have been executed (with or without the final checkpoint)"""
